@@ -170,7 +170,7 @@ func checkShare(c *core.Ctx, rule string) {
 		ord := map[string]int{}
 		for i, u := range uses {
 			nSites++
-			k := core.ShortFn(fn) + "/" + u.callee.Name() + "." + u.callee.Params[u.param].Name()
+			k := core.ShortFn(fn) + "/" + u.callee.Name() + "." + core.ParamName(u.callee.Params[u.param])
 			ord[k]++
 			key := fmt.Sprintf("%s#%d", k, ord[k])
 			// (a) the same object handed to another retaining parameter
